@@ -9,9 +9,9 @@ Definition fired_eqb (a b : fired) : bool := (snd a =? snd b)%Z && beqb (fst a) 
 
 Record spec := { sp_pending : list fired; sp_ups : list (N * Z); sp_wm : Z }.
 
-(* a fresh registry (start or restore): upstream watermarks at the epoch, watermark at the zero time *)
+(* a fresh registry (start or restore): upstream watermarks and the composite watermark at the epoch *)
 Definition spec_new (srids : list N) (pending : list fired) : spec :=
-  {| sp_pending := pending; sp_ups := fold_left (fun l id => ups_set id 0%Z l) srids []; sp_wm := zero_time |}.
+  {| sp_pending := pending; sp_ups := fold_left (fun l id => ups_set id 0%Z l) srids []; sp_wm := 0%Z |}.
 
 Definition sp_add (x : fired) (l : list fired) : list fired := if existsb (fired_eqb x) l then l else x :: l.
 
